@@ -12,6 +12,7 @@ from props import c13
 
 ID = "C16"
 LEAN_MODULES = ["CatiiProps.C16"]
+USES_TRANSLATOR = ['driver']   # Gen/DriverGen.lean: facts read off ccube.calculate / xcube.calculate (tools/translate_driver.py)
 USES_MODEL = False
 RULE = ("cubes with more than two sub-cubes (multi-axis dims), both cube types, every aggregate of C03 (and the "
         "array-cube statistics of C18) singly and several together; pooled runs (cube.parallel = True) under: every "
